@@ -5,6 +5,7 @@ from harness import wavecheck as wk, waveoracle as wo, wavesim_corr as wc
 THEOREMS = ['C13_wsa_counts', 'C13_overflow_mark', 'C13_no_overflow_is_exact', 'C13_capture_summary', 'C13_value_before_prefix',
             'C13_wacc_running', 'C13_wacc_final', 'C13_wacc_final_ssa', 'C13_acc_once_check_sound', 'C13_ovf_reach', 'C13_ovf_reach_clean', 'C13_circuit_capture', 'C13_flat_capture',
             'C13_wavesim_model_capture', 'C13_wavesim_model_activity']
+THEOREMS += ['C13_kernel_source_is_model', 'C13_source_counts', 'C13_capture_cpu_source_is_model', 'C13_capture_gpu_source_is_model']   # source tie of the merge kernel (Gen/WaveEvalSrc.v)
 
 
 def oracle(k, w):
@@ -109,6 +110,7 @@ def ovf_pin_stress(ck, n):
 
 
 def run(ck):
+    wk.regen_kernel(ck)
     if THEOREMS:
         ck.prove('C13', THEOREMS)
     fails, mism = wk.campaign(ck, ck.scale(40, 1200), oracle, gen_kw={'with_actrl': True, 'allow_dangling': False, 'strip_prob': 0.3}, coq_lanes=1, coq_every=2, stress_every=3, line_level=True, glue=True)
